@@ -7,6 +7,15 @@ TRUST = ("TLC 1.8 evaluates the TLA+ judge; harness/lib.py projections (real obj
          "of abstract cases are trusted; bounds as stated in the evidence file")
 
 CHECKS = {
+ "C20": dict(
+    text="ImageStack.tla models a stack as a function on index tuples whose values are index codes, saving as an axis permutation plus an axes tag, loading "
+         "as the inverse permutation by the tag, and the unsigned / float rescaling as exact rationals; TLC proves Load(Save(a)) = a for every shape and "
+         "shows that a wrong axes tag is visible exactly on asymmetric shapes. Every shape x channel mode x array dtype x save dtype x load dtype is then "
+         "written and read back through the real save_tiff / read_imgs (a sample through NPY and NRRD) and every voxel judged by TLC. For rasterisation the "
+         "module states the box, the voxel-centre grid (count per axis = centres strictly below the upper bound, for any rational resolution) and exact "
+         "integer membership of a centre in the capsule around each parent-child pair; TLC judges the shape and every voxel of ToImageStack on lattice trees "
+         "(equal end radii: decided up to centres exactly on a surface; unequal: bracketed), and the executor checks transform_and_save -> read_imgs",
+    design="4/C20", technique="TLA+ specification of axis/dtype bookkeeping (round trip proved by TLC over shapes) and of exact voxel membership + TLC-generated io cases and lattice scenes replayed into the code, TLC-judged voxel by voxel"),
  "C16": dict(
     text="Resample.tla states resampling in exact rational arithmetic on trees whose segments are axis-parallel with integer lengths: the number of points "
          "of a branch (ceil(L / spacing) + 1), each point as the rational point of the original polyline at its arc length (equal steps, or fixed steps with a "
